@@ -6,10 +6,12 @@
    [no_crash o] = o is a value or an error.  [bytes_ok b] = every element of b is below 256.
 
    Section 5 models the DER reader of encoding/asn1 itself (Dec/Asn1Model.v) and proves it total for every
-   schema; it is instantiated end to end for SignDataToSignDigit and CipherUnmarshal.
-   NOT proved here (checked by the corpus of the C18 driver only): the other wrappers over encoding/asn1,
-   encoding/pem, math/big or crypto/... (certificate, CSR, CRL, PKCS#7 and PKCS#12 structure beyond the
-   reader core) and the stdlib-derived TLS message parsers. *)
+   schema; it is instantiated for every Go type gmsm decodes into (Gen/Asn1Schemas.v) and end to end for
+   SignDataToSignDigit and CipherUnmarshal.
+   NOT proved here (checked by the corpus of the C18 driver only): what gmsm does with the decoded structures
+   (certificate, CSR, CRL, PKCS#7 and PKCS#12 processing after asn1.Unmarshal), encoding/pem, math/big, crypto/...
+   The stdlib-derived TLS handshake message parsers are proved in the C15 family (Props/C15.v, message parsers);
+   here they are exercised by the corpus and the structure-aware mutants only. *)
 From Coq Require Import List NArith ZArith Arith Bool Lia.
 From GmsmVerif Require Import Gen.DecConsts Lib.Outcome Dec.Access Dec.AccessProofs Dec.DecSpec
   Dec.BerModel Dec.BerProofs Dec.BerDer Dec.BerFuel Dec.BerSize Dec.ByteModels Dec.ByteProofs
@@ -252,43 +254,36 @@ Print Assumptions C18_asn1_unmarshal_total.
 (* the Go types gmsm hands to encoding/asn1.Unmarshal: certificate, tbsCertificate, certificateRequest,
    pkix.CertificateList, the PKCS#7 / PKCS#8 / PKCS#12 structures, the extension payloads, the SM2 structures ...
    Their schemas are read from the struct declarations and asn1 tags in the source by the translator
-   (Gen/Asn1Schemas.v, regenerated on every run; names are <package>.<Go type> in ASCII).  For every one of them and
-   every byte string: a value or an error, with the cost bound; the bound is computed for each schema below. *)
+   (Gen/Asn1Schemas.v, regenerated on every run; names are <package>.<Go type> in ASCII).  The list is not empty, and
+   for every one of them and every byte string: a value of the type's shape or an error, within the cost bound of the
+   schema, which for the schemas listed now is at most 800 + 400 * |b| tag-and-length reads. *)
 Theorem C18_gmsm_asn1_decoders_total :
+  gen_asn1_schemas <> [] /\
   forall name s, In (name, s) gen_asn1_schemas ->
   forall b,
     match Unmarshal s noParams b with
     | Ok (v, rest, steps) => (steps <= 2 * N.of_nat (ksize s) + N.of_nat (kweight s) * N.of_nat (length b))%N /\
+                             (steps <= 800 + 400 * N.of_nat (length b))%N /\
                              length rest <= length b /\ conforms s v = true
     | Err _ => True
     | Panic | Hang => False
     end.
 Proof.
-  intros name s _ b. pose proof (Unmarshal_total s noParams b) as U.
-  destruct (Unmarshal s noParams b) as [[[v rest] st]| | |]; auto.
-  destruct U as (U1 & U2 & U3). repeat split; auto. destruct v; try exact U3; discriminate.
-Qed.
-Print Assumptions C18_gmsm_asn1_decoders_total.
-
-(* the sizes behind the bound, evaluated on what the source declares now: the list is not empty, the largest
-   schema has fewer than 400 nodes and a weight below 400, so every one of these decoders makes at most
-   800 + 400 * |b| tag-and-length reads *)
-Theorem C18_gmsm_asn1_cost :
-  gen_asn1_schemas <> [] /\
-  forall name s, In (name, s) gen_asn1_schemas -> forall b v rest steps,
-    Unmarshal s noParams b = Ok (v, rest, steps) -> (steps <= 800 + 400 * N.of_nat (length b))%N.
-Proof.
   split; [discriminate|].
+  (* the sizes behind the second bound, evaluated on what the source declares now: every listed schema has at
+     most 400 nodes and a weight of at most 400 *)
   assert (H : forallb (fun ns => Nat.leb (ksize (snd ns)) 400 && Nat.leb (kweight (snd ns)) 400)%bool gen_asn1_schemas = true)
     by (vm_compute; reflexivity).
-  rewrite forallb_forall in H. intros name s Hin b v rest steps E.
+  rewrite forallb_forall in H. intros name s Hin b.
   specialize (H _ Hin). cbn [snd] in H. apply andb_prop in H. destruct H as [H1 H2].
   apply Nat.leb_le in H1, H2.
-  pose proof (Unmarshal_total s noParams b) as U. rewrite E in U. destruct U as (U & _).
+  pose proof (Unmarshal_total s noParams b) as U.
+  destruct (Unmarshal s noParams b) as [[[v rest] st]| | |]; auto.
+  destruct U as (U1 & U2 & U3).
   assert (N.of_nat (kweight s) * N.of_nat (length b) <= 400 * N.of_nat (length b))%N by (apply N.mul_le_mono_r; lia).
-  lia.
+  repeat split; auto; try lia. destruct v; try exact U3; discriminate.
 Qed.
-Print Assumptions C18_gmsm_asn1_cost.
+Print Assumptions C18_gmsm_asn1_decoders_total.
 
 (* the second part of the reader on hand-written copies of validity, SEQUENCE OF Extension, basicConstraints and
    RDNSequence (time, bool, int with default, slices, SET OF by type name, ANY) *)
